@@ -35,24 +35,29 @@ type proc struct {
 	release chan Outcome
 	done    bool
 	dead    bool // belongs to a stopped incarnation
+	anon    bool // spawned by the library; its end is not observed
 }
 
 // S is one scheduler; one execution at a time uses it.
 type S struct {
-	mu       sync.Mutex
-	byGoid   map[int64]*proc
-	byName   map[string]*proc
-	arrivals chan *Gate
-	free     bool
-	epoch    int
-	anon     int
-	seq      int
+	mu     sync.Mutex
+	byGoid map[int64]*proc
+	byName map[string]*proc
+	wake   chan struct{}
+	free   bool
+	epoch  int
+	anon   int
+	seq    int
+	exempt map[int64]bool
+	// OnArrive is called by the arriving goroutine itself before it parks; OnExit when a process ends.
+	OnArrive func(*Gate)
+	OnExit   func(name string)
 	// OnAnon names a library-spawned goroutine at its first gate.
 	OnAnon func(site string) string
 }
 
 func New() *S {
-	return &S{byGoid: map[int64]*proc{}, byName: map[string]*proc{}, arrivals: make(chan *Gate, 256)}
+	return &S{byGoid: map[int64]*proc{}, byName: map[string]*proc{}, wake: make(chan struct{}, 1)}
 }
 
 // Goid returns the id of the calling goroutine.
@@ -82,7 +87,10 @@ func (s *S) Go(name string, f func()) {
 			p.done = true
 			delete(s.byGoid, p.goid)
 			s.mu.Unlock()
-			s.arrivals <- &Gate{Proc: name, Kind: "exit", Site: "exit"}
+			if f := s.OnExit; f != nil {
+				f(name)
+			}
+			s.poke()
 		}()
 		f()
 	}()
@@ -96,15 +104,13 @@ func (s *S) Free() {
 	var ps []*proc
 	for _, p := range s.byName {
 		if p.gate != nil && !p.dead {
+			p.gate = nil
 			ps = append(ps, p)
 		}
 	}
 	s.mu.Unlock()
 	for _, p := range ps {
-		select {
-		case p.release <- Outcome{Kind: "free"}:
-		default:
-		}
+		p.release <- Outcome{Kind: "free"}
 	}
 }
 
@@ -112,6 +118,17 @@ func (s *S) IsFree() bool {
 	s.mu.Lock()
 	defer s.mu.Unlock()
 	return s.free
+}
+
+// Exempt lets the calling goroutine pass every gate (the executor's own store and network use).
+func (s *S) Exempt() {
+	id := Goid()
+	s.mu.Lock()
+	if s.exempt == nil {
+		s.exempt = map[int64]bool{}
+	}
+	s.exempt[id] = true
+	s.mu.Unlock()
 }
 
 // Me names the calling goroutine ("" when it is not a registered process).
@@ -122,14 +139,46 @@ func (s *S) Me() string {
 	if p := s.byGoid[id]; p != nil {
 		return p.name
 	}
+	if s.exempt[id] {
+		return "env"
+	}
 	return ""
+}
+
+// Done reports whether the named process has ended (or never existed).
+func (s *S) Done(name string) bool {
+	s.mu.Lock()
+	defer s.mu.Unlock()
+	p := s.byName[name]
+	return p == nil || p.done
+}
+
+// Names lists the live processes.
+func (s *S) Names() []string {
+	s.mu.Lock()
+	defer s.mu.Unlock()
+	var r []string
+	for n, p := range s.byName {
+		if !p.done && !p.dead && !p.anon {
+			r = append(r, n)
+		}
+	}
+	return r
 }
 
 // Arrive parks the calling goroutine at a gate until the executor releases it.
 func (s *S) Arrive(kind, site string, info map[string]any) Outcome {
 	id := Goid()
 	s.mu.Lock()
+	if s.exempt[id] {
+		s.mu.Unlock()
+		return Outcome{Kind: "free"}
+	}
 	p := s.byGoid[id]
+	if p == nil && s.free {
+		s.mu.Unlock()
+		return Outcome{Kind: "free"}
+	}
 	if p == nil {
 		name := ""
 		if s.OnAnon != nil {
@@ -144,7 +193,7 @@ func (s *S) Arrive(kind, site string, info map[string]any) Outcome {
 			s.anon++
 			name = fmt.Sprintf("%s.%d", name, s.anon)
 		}
-		p = &proc{name: name, goid: id, release: make(chan Outcome, 1)}
+		p = &proc{name: name, goid: id, release: make(chan Outcome, 1), anon: true}
 		s.byGoid[id] = p
 		s.byName[name] = p
 	}
@@ -158,12 +207,24 @@ func (s *S) Arrive(kind, site string, info map[string]any) Outcome {
 	}
 	s.seq++
 	g := &Gate{Proc: p.name, Kind: kind, Site: site, Info: info, Seq: s.seq}
+	if f := s.OnArrive; f != nil {
+		s.mu.Unlock()
+		f(g)
+		s.mu.Lock()
+		if s.free { // switched to free mode meanwhile
+			s.mu.Unlock()
+			return Outcome{Kind: "free"}
+		}
+		if p.dead {
+			s.mu.Unlock()
+			select {}
+		}
+	}
 	p.gate = g
 	s.mu.Unlock()
-	s.arrivals <- g
+	s.poke()
 	o := <-p.release
 	s.mu.Lock()
-	p.gate = nil
 	dead := p.dead
 	s.mu.Unlock()
 	if dead {
@@ -200,6 +261,9 @@ func (s *S) Release(name string, o Outcome) bool {
 	s.mu.Lock()
 	p := s.byName[name]
 	ok := p != nil && p.gate != nil && !p.dead
+	if ok {
+		p.gate = nil // released: not parked any more, even before the goroutine runs
+	}
 	s.mu.Unlock()
 	if !ok {
 		return false
@@ -208,15 +272,45 @@ func (s *S) Release(name string, o Outcome) bool {
 	return true
 }
 
-// Await waits for the next arrival of any process.
-func (s *S) Await(d time.Duration) *Gate {
-	t := time.NewTimer(d)
-	defer t.Stop()
+func (s *S) poke() {
 	select {
-	case g := <-s.arrivals:
-		return g
-	case <-t.C:
-		return nil
+	case s.wake <- struct{}{}:
+	default:
+	}
+}
+
+// WaitParked waits until the named process is parked at a gate (returns it), has ended
+// (nil, true) or the time is up (nil, false).
+func (s *S) WaitParked(name string, d time.Duration) (*Gate, bool) {
+	deadline := time.Now().Add(d)
+	for {
+		s.mu.Lock()
+		p := s.byName[name]
+		var g *Gate
+		done := false
+		if p != nil && !p.dead {
+			g, done = p.gate, p.done
+		}
+		s.mu.Unlock()
+		if g != nil {
+			return g, false
+		}
+		if done {
+			return nil, true
+		}
+		rest := time.Until(deadline)
+		if rest <= 0 {
+			return nil, false
+		}
+		if rest > 2*time.Millisecond {
+			rest = 2 * time.Millisecond
+		}
+		t := time.NewTimer(rest)
+		select {
+		case <-s.wake:
+		case <-t.C:
+		}
+		t.Stop()
 	}
 }
 
